@@ -198,7 +198,7 @@ def solve_text(text_full, text_qf, timeout_s, tmpdir, want_model=False, race=Fal
     return "unknown", "portfolio", time.time() - t0, "; ".join(notes)
 
 
-def discharge(obligations, probes=None, timeout_ms=10000, jobs=None, hints=None):
+def discharge(obligations, probes=None, timeout_ms=10000, jobs=None, hints=None, race=None):
     """sets .verdict ('discharged'|'refuted'|'undecided'), .backend, .time, .raw on every obligation.
 
     Every obligation is attempted as a whole by the portfolio; obligations whose hypotheses contain joined paths
@@ -210,7 +210,8 @@ def discharge(obligations, probes=None, timeout_ms=10000, jobs=None, hints=None)
     jobs = jobs or min(16, os.cpu_count() or 1)
     timeout_s = max(1, timeout_ms // 1000)
     # few obligations (typically the escalation round): run the portfolio members side by side instead of one after the other
-    race = sum(1 for ob in obligations if not z3.is_true(ob.goal)) <= max(1, jobs // 4)
+    if race is None:
+        race = sum(1 for ob in obligations if not z3.is_true(ob.goal)) <= max(1, jobs // 4)
     tmpdir = tempfile.mkdtemp(prefix="pyvc_")
     try:
         whole = []
